@@ -87,7 +87,8 @@ class SeqDomain(Domain):
             out.append(('to_array', 'S.to_array()', ERR))
             out.append(('reverse', 'S.reverse()', ERR))
             out.append(('sort', 'S.sort(icmp)', ERR))
-            out.append(('take_while(lt2)', 'S.take_while(lt2)', Fin(self._tw(m)) if self._tw_ends(m) else ('MAYBE', Fin(()))))
+            if self._tw_ends(m):   # otherwise the search is unbounded (ends in the search-limit violation)
+                out.append(('take_while(lt2)', 'S.take_while(lt2)', Fin(self._tw(m))))
             for oexpr, om in others[:3]:
                 if not om.inf:
                     out.append(('S+%s' % self.key(om), 'S + %s' % oexpr, ERR if len(om) else ('MAYBE', Inf(m))))
